@@ -426,3 +426,16 @@ func TestVerif_C20(t *testing.T) {
 		out.Stat(k, v)
 	}
 }
+
+// The two facts about Go's Unicode tables that the round-trip theorem (C20_print_read_roundtrip)
+// takes as hypotheses on its oracles, checked over every code point.
+func TestVerif_C20Unicode(t *testing.T) {
+	for r := rune(128); r <= unicode.MaxRune; r++ {
+		if (unicode.IsLetter(r) || unicode.IsDigit(r)) && unicode.IsSpace(r) {
+			t.Fatalf("U+%04X is a letter or digit and a space", r)
+		}
+	}
+	if unicode.IsLetter(0xFEFF) || unicode.IsDigit(0xFEFF) {
+		t.Fatalf("U+FEFF is a letter or digit")
+	}
+}
